@@ -264,7 +264,11 @@ class TGen:
             guard = If(B("<=", V(p0), I(0)), Block([Ret(self.expr(Env(genv), ret, 0, pure=True))]))
             cut = self.rng.randrange(len(stmts) + 1)
             before = [x for x in stmts[:cut]]
-            rec = Call(name, [B("-", V(p0), I(1))] + [self.expr(env, t, 1, pure=True) for t, _ in params[1:]])
+            penv = Env(genv)        # only parameters and globals: locals of the later statements are not declared yet at the call
+            penv.bounds = {}
+            for t, n in params:
+                penv.vars[n] = t
+            rec = Call(name, [B("-", V(p0), I(1))] + [self.expr(penv, t, 1, pure=True) for t, _ in params[1:]])
             x = self.fresh()
             after_env_decl = Decl(ret, x, rec)
             env.vars[x] = ret
